@@ -21,6 +21,7 @@ import warnings
 from .. import tlc
 from .c04 import ALL_KWS, CATS, P, kw, rec_expr, UNSET
 
+OBJ = {}          # scheme name -> hasher object, for schemes that are given to contexts as objects
 INVS = ["InvLiveValid"]
 PROPS = ["FailedChangesNothing", "Independent", "UpdateExact", "EmptyUpdateNoop"]
 ARMED = {"on": False}
@@ -31,7 +32,9 @@ def scheme_table():
     import passlib.utils.handlers as uh
     from passlib import registry
     t = {}
-    t["sha256_crypt"] = dict(base=H.sha256_crypt, P=P(1000, 999999999, H.sha256_crypt.default_rounds),
+    # sha256_crypt is handed to the contexts as a PRE-CONFIGURED hasher object (own maximum and default), not by name
+    pre = H.sha256_crypt.using(max_rounds=50000, default_rounds=40000)
+    t["sha256_crypt"] = dict(base=pre, custom=True, P=dict(P(1000, 999999999, 40000), maxD=50000),
                              kws=[kw(minA=1500), kw(maxA=1500), kw(minA=1500, maxA=2500), kw(d=1800), kw(d=999), kw(minA=600000),
                                   kw(minA=3000, maxA=2500), kw(d=3000, maxA=2500), kw(varyK="int", varyV=100),
                                   kw(varyK="pct", varyV=10, minA=1900), kw(varyK="pct", varyV=25), kw(varyK="pct", varyV=100), kw(varyK="int", varyV=1)])
@@ -61,6 +64,19 @@ def scheme_table():
                 return "abcd"
         registry.register_crypt_handler(faulty)
     t["faulty"] = dict(base=faulty, P=None, kws=[kw(minA=5)])
+
+    class custom1(uh.StaticHandler):
+        """a hasher that is NOT registered: it can only be given to a context as an object"""
+        name = "custom1"
+        _hash_prefix = "$custom1$"
+        checksum_size = 4
+        checksum_chars = uh.LOWER_HEX_CHARS
+
+        def _calc_checksum(self, secret):
+            return "beef"
+    t["custom1"] = dict(base=custom1, custom=True, P=None, kws=[kw(minA=5)])
+    OBJ.clear()
+    OBJ.update({n: v["base"] for n, v in t.items() if v.get("custom")})
     for n, v in t.items():
         v["greedy"] = False
         ck = {"user": "user"} if "user" in v["base"].context_kwds else {}
@@ -84,7 +100,7 @@ def render(cfg, rnd=None, partial=False, has_schemes=True):
     """γ: abstract configuration / patch -> keyword dict as a user would write it"""
     d = {}
     if has_schemes and (cfg["schemes"] or not partial):
-        d["schemes"] = list(cfg["schemes"])
+        d["schemes"] = [OBJ.get(s, s) for s in cfg["schemes"]]
     for c in CATS:
         pre = "" if c == "none" else c + "__context__"
         if cfg["def"][c] != "unset":
@@ -177,6 +193,8 @@ def run_behaviour(chk, T, beh, rnd):
             if op == "load":
                 d = render(st["patch"]["cfg"], rnd, has_schemes=st["patch"]["hasSchemes"])
                 form = rnd.choice(["dict", "dict", "ctor", "string"]) if k else "dict"
+                if form == "string" and any(s in OBJ for s in st["patch"]["cfg"]["schemes"]):
+                    form = "ctor"          # an INI text can only name registered hashers
                 if form == "ctor":
                     tmp = CryptContext(**d)      # raises before anything is touched; then load the object
                     real[i].load(tmp)
@@ -190,7 +208,7 @@ def run_behaviour(chk, T, beh, rnd):
             elif op == "update":
                 d = render(st["patch"]["cfg"], rnd, partial=True, has_schemes=st["patch"]["hasSchemes"])
                 if st["patch"]["hasSchemes"]:
-                    d["schemes"] = list(st["patch"]["cfg"]["schemes"])
+                    d["schemes"] = [OBJ.get(s, s) for s in st["patch"]["cfg"]["schemes"]]
                 if rnd.random() < .5:
                     real[i].update(**d)
                 else:
@@ -199,7 +217,10 @@ def run_behaviour(chk, T, beh, rnd):
                 real[1] = real[0].copy()
             elif op == "to_dict":
                 ARMED["on"] = False
-                real[i] = CryptContext(**real[i].to_dict())
+                exported = real[i].to_dict()
+                if "schemes" in exported:      # the export names the hashers; objects are handed back as objects
+                    exported["schemes"] = [OBJ.get(s, s) for s in exported["schemes"]]
+                real[i] = CryptContext(**exported)
             elif op == "to_string":
                 ARMED["on"] = False
                 text = real[i].to_string()
@@ -210,7 +231,14 @@ def run_behaviour(chk, T, beh, rnd):
                 td = real[i].to_dict()
                 if set(ini) != set(td):
                     got, err = "ini-keys-differ", f"{sorted(ini)} vs {sorted(td)}"
-                real[i] = CryptContext.from_string(text)
+                if any(s in OBJ for s in real[i].schemes()):
+                    fresh = CryptContext.from_string(text.replace("schemes = ", "schemes_were = ", 1)) if False else None
+                    # (the text is checked above; re-importing it would need the objects - done through the dict form instead)
+                    exported = real[i].to_dict()
+                    exported["schemes"] = [OBJ.get(s, s) for s in exported["schemes"]]
+                    real[i] = CryptContext(**exported)
+                else:
+                    real[i] = CryptContext.from_string(text)
         except (KeyError, ValueError, TypeError, RuntimeError) as e:
             got = next(n for n, c in (("KeyError", KeyError), ("ValueError", ValueError), ("TypeError", TypeError), ("RuntimeError", RuntimeError)) if isinstance(e, c))
             err = str(e)[:100]
